@@ -55,7 +55,7 @@ func execBurst(plan *Plan, refs *refTable) *runResult {
 				if op.Shared >= 0 && op.Shared < len(s.shared) {
 					sh = s.shared[op.Shared].sub
 				}
-				r := runOp(op.Key, sh, false)
+				r := runOpX(op.Key, sh, false, op.Fresh)
 				bt.hashes[j] = r.hash
 				if sh == nil {
 					rr := &retained{sub: r.sub, task: id, op: j, key: op.Key}
@@ -63,7 +63,7 @@ func execBurst(plan *Plan, refs *refTable) *runResult {
 					bt.retained = append(bt.retained, rr)
 				}
 				if op.Twice {
-					r2 := runOp(op.Key, sh, false)
+					r2 := runOpX(op.Key, sh, false, op.Fresh)
 					bt.hashes2[j] = r2.hash
 				}
 				if j&1 == 1 {
